@@ -143,7 +143,19 @@ SERVER_SEND = (
 REGISTER = ("register_control", "register_filter", "register_auth_credential")
 
 
+def _drop_omitted(kw, a):
+    """Keyword arguments named in a["omit"] are not passed at all, so that the method's own default is used."""
+    for k in a.get("omit") or ():
+        kw.pop(k, None)
+    return kw
+
+
 def build_call(method, a, pool=None):
+    args, kw = _build_call(method, a, pool)
+    return args, _drop_omitted(kw, a)
+
+
+def _build_call(method, a, pool=None):
     """Return (args, kwargs) for session.<method> from abstract args `a`.
 
     `pool`: per-world dict of library objects that the simulated application keeps and reuses across calls (an
@@ -610,8 +622,18 @@ class Gen:
         return a
 
     def a_result(self, mid, code=None):
-        return {"id": mid, "code": self.code() if code is None else code, "matched_dn": self.opt_text(),
-                "diag": self.opt_text(), "controls": self.controls()}
+        a = {"id": mid, "code": self.code() if code is None else code, "matched_dn": self.opt_text(),
+             "diag": self.opt_text(), "controls": self.controls()}
+        return self._omit(a, {"controls": "controls", "matched_dn": "matched_dn", "diag": "diagnostics_message"})
+
+    def _omit(self, a, names):
+        """Leave out keyword arguments whose abstract value is None anyway (the API default)."""
+        om = [kw for k, kw in names.items() if a.get(k) is None and self.r.random() < 0.5]
+        if a.get("code") == 0 and "code" in a and self.r.random() < 0.3:
+            om.append("result_code")
+        if om:
+            a["omit"] = om
+        return a
 
     def a_bind_response(self, mid, code=None):
         a = self.a_result(mid, code)
